@@ -5,7 +5,8 @@
   (bank (<module> …) (<op> …))                        → (<result> …)
       module ::= (<mod> (sub …) (<class> …))          mod ::= (pkg sub|none)
       class  ::= (<mod> qn alias|none unimpl inner (<classid> …) (<mod> …))      classid ::= (<mod> qn)
-      op     ::= (import <mod>) | (reload <mod> (interned-qn …)) | (get <classid> <ref> (<mod> …))     ref ::= (a n) | (q <mod> qn)
+      op     ::= (import <mod>) | (reload <mod> (interned-qn …)) | (get <classid> <ref> (<mod> …))   (`noiface` when the
+                 interface's module is not imported)     ref ::= (a n) | (q <mod> qn)
                  (the module list of a `get` is the observed iteration order of the bank's path set: it has to be a
                  permutation of the model's path set — `bad-order` otherwise —; the repaired `Bank.get` sorts, so it is
                  not used any further)
@@ -15,7 +16,7 @@
       resolved ::= (<provider cfg | none> <params table>)
   (bankt (<clsstmt> …) (<tmodule> …) (<op> …))        → (<result> …)      the class flags are computed from the class table
       clsstmt ::= (abc|noabc ((name <attr>) …) (base …) (mro …))   attr ::= (f true|false) | (c k) | o
-      tmodule ::= (<mod> (sub …) (<prov> …))         prov ::= (<mod> qn alias|none k (<classid> …) (<mod> …))
+      tmodule ::= (<mod> (sub …) (<prov> …))         prov ::= (<mod> qn alias|none k ((<classid> service?) …) (<mod> …))   the MRO tail with the Service-subclass flag
   (abstract (<clsstmt> …))                            → ((inspect ext (abstract-name …)) …)   one entry per class statement
   cfg ::= (s n) | (l n …) | (t (k <cfg>) …)
 -/
@@ -108,9 +109,13 @@ def clsStmt? : Sexp → Option ClsStmt
     pure ⟨a, ns, ← bases.natList?, ← mro.natList?⟩
   | _ => none
 
+def mroEntry? : Sexp → Option (ClassId × Bool)
+  | .list [c, b] => do pure (← classId? c, ← bool? b)
+  | _ => none
+
 def prov? : Sexp → Option ProvStmt
   | .list [m, q, a, k, .list ps, .list paths] => do
-    pure ⟨⟨← mod? m, ← q.nat?⟩, ← optNat? a, ← k.nat?, ← ps.mapM classId?, ← paths.mapM mod?⟩
+    pure ⟨⟨← mod? m, ← q.nat?⟩, ← optNat? a, ← k.nat?, ← ps.mapM mroEntry?, ← paths.mapM mod?⟩
   | _ => none
 
 def tmodule? : Sexp → Option (Mod × ModuleT)
@@ -162,7 +167,8 @@ def runOps (w : World) : St → List Op → List Sexp
     | some (st', some e) => .list [.atom "err", ofErr e] :: runOps w st' rest
     | some (st', none) => .atom "ok" :: runOps w st' rest
   | st, .get i r order :: rest =>
-    if !validOrder (getBank i st.banks).paths order then .atom "bad-order" :: runOps w st rest
+    if !st.loaded.contains i.mod then .atom "noiface" :: runOps w st rest
+    else if !validOrder (getBank i st.banks).paths order then .atom "bad-order" :: runOps w st rest
     else match ForML.Bank.get w st i r with
       | (st', .ok c) => .list [.atom "ok", .list [ofMod c.mod, Sexp.ofNat c.qn]] :: runOps w st' rest
       | (st', .error e) => .list [.atom "err", ofErr e] :: runOps w st' rest
